@@ -157,8 +157,12 @@ def vi_motion(R, chars='aoxb .,(é'):
         return vi_count(R) + R.choice(MOTIONS_LINE)
     if k < 0.8:
         return R.choice(MOTIONS_OTHER)
-    if k < 0.95:
+    if k < 0.92:
         return vi_count(R) + vi_findch(R, chars)
+    if k < 0.97:
+        # searches as motions: literal patterns, sometimes a line offset after the closing delimiter, n / N
+        w = R.choice(['a', 'o', 'b', 'ab', 'foo', 'x', 'ar', 'Wo'])
+        return R.choice(['', '', '2']) + R.choice(['/%s\n' % w, '/%s\n' % w, '?%s\n' % w, '/%s/+1\n' % w, '/%s/0\n' % w, '?%s?-1\n' % w, 'n', 'n', 'N', '/\n', '?\n'])
     return R.choice(["'a", '`a', "''"])
 
 
